@@ -66,6 +66,7 @@ type Database struct {
 	header      *header
 	btreeCache  *btreeCache // table and index page cache
 	objectCache *objectCache
+	walks       []map[int]struct{} // interior pages the b-tree walks in progress have been to, innermost last
 }
 
 // OpenFile opens a .sqlite file. This is the main entry point.
@@ -308,6 +309,7 @@ func (db *Database) master() ([]sqliteMaster, error) {
 		return o.objects, o.err
 	}
 
+	defer db.beginWalk()()
 	master, err := db.openTable(1)
 	if err != nil {
 		return nil, err
@@ -375,7 +377,7 @@ func (db *Database) openPage(page int) (interface{}, error) {
 	}
 
 	if p := db.btreeCache.get(page); p != nil {
-		return p, nil
+		return p, db.visit(page, p)
 	}
 
 	buf, err := db.page(page)
@@ -388,8 +390,41 @@ func (db *Database) openPage(page int) (interface{}, error) {
 	}
 	if err == nil {
 		db.btreeCache.set(page, p)
+		err = db.visit(page, p)
 	}
 	return p, err
+}
+
+// beginWalk is called where a walk through one b-tree starts (a scan, a
+// search, the listing of sqlite_master), before its root page is opened. The
+// function it returns ends the walk. Walks nest: a callback can start another
+// one.
+func (db *Database) beginWalk() func() {
+	db.walks = append(db.walks, map[int]struct{}{})
+	return func() {
+		db.walks = db.walks[:len(db.walks)-1]
+	}
+}
+
+// visit notes that the innermost walk came to an interior page. No walk
+// through a tree comes to the same interior page twice. In a hostile file
+// pages can share their children level after level: that is not a cycle and
+// not deeper than any tree, but there are (pages per level)^(levels) ways
+// through it, and a walk would take every one of them.
+func (db *Database) visit(page int, p interface{}) error {
+	if len(db.walks) == 0 {
+		return nil
+	}
+	switch p.(type) {
+	case *tableInterior, *indexInterior:
+		w := db.walks[len(db.walks)-1]
+		if _, ok := w[page]; ok {
+			// the same error a page which is its own ancestor gives
+			return ErrRecursion
+		}
+		w[page] = struct{}{}
+	}
+	return nil
 }
 
 func (db *Database) openTable(page int) (tableBtree, error) {
@@ -446,6 +481,7 @@ func (db *Database) withoutRowid(name string) bool {
 	if err != nil {
 		return false
 	}
+	defer db.beginWalk()()
 	_, err = t.db.openIndex(t.root)
 	return err == nil
 }
